@@ -644,6 +644,7 @@ impl Gen {
                     dup_left,
                 } => {
                     self.maybe_clock_fault();
+                    self.maybe_boundary_clock(&tx, ledger);
                     let clock = self.clock_now();
                     if dup_left > 0 {
                         // client retry: the same transaction lands again later
@@ -672,6 +673,31 @@ impl Gen {
                     });
                 }
             }
+        }
+    }
+
+    /// clock fault aimed at the adaptive-fee time windows: land a swap exactly at
+    /// (last reference update | last major swap) + {filter, decay, 3600} -1 / +0 / +1 seconds
+    fn maybe_boundary_clock(&mut self, tx: &Tx, ledger: &Ledger) {
+        if self.knobs.profile != Profile::Adaptive || self.knobs.clock_jump_pct == 0 || !self.rng.chance(1, 5) {
+            return;
+        }
+        let Some(c) = tx.ixs.first().and_then(crate::wpix::decode) else { return };
+        if !matches!(c.name(), "swap" | "swap_v2") {
+            return;
+        }
+        let Some(o) = ledger.data(&c.a("oracle")).and_then(decode::oracle) else { return };
+        let now = self.clock_now().unix_timestamp;
+        let base = if self.rng.chance(1, 2) {
+            o.v.last_reference_update_timestamp
+        } else {
+            o.v.last_reference_update_timestamp.max(o.v.last_major_swap_timestamp)
+        } as i64;
+        let w = *self.rng.pick(&[o.c.filter_period as i64, o.c.decay_period as i64, 3600]);
+        let target = base + w + self.rng.range(-1, 1);
+        if target > now && target - now < 100_000 {
+            self.ts_offset += target - now;
+            self.stats.hit("clock_jump_to_window_boundary");
         }
     }
 
